@@ -1231,14 +1231,16 @@ func (r *RangeEntry) CheckValue(v val.Value) error {
 			return errNotExpectedValue
 		}
 	}
-	if !r.Min.Empty() {
+	// 'min' and 'max' stand for the bounds of the type being restricted, those are
+	// enforced by that type so there is nothing to compare here
+	if !r.Min.Empty() && !r.Min.isMin && !r.Min.isMax {
 		if cmp, err := r.Min.Compare(v); err != nil {
 			return err
 		} else if cmp > 0 {
 			return errOutsideRange
 		}
 	}
-	if !r.Max.Empty() {
+	if !r.Max.Empty() && !r.Max.isMax && !r.Max.isMin {
 		if cmp, err := r.Max.Compare(v); err != nil {
 			return err
 		} else if cmp < 0 {
@@ -1262,7 +1264,7 @@ func (n RangeNumber) IsMax() bool {
 }
 
 func (n RangeNumber) IsMin() bool {
-	return n.isMax
+	return n.isMin
 }
 
 func (n RangeNumber) Integer() *int64 {
